@@ -1,210 +1,23 @@
 package filesystem
 
-import (
-	"errors"
-	"os"
-	"strings"
-)
+// C27, package filesystem: WriteFileAtomic on the model of c27model.go.
 
-// C27: WriteFileAtomic against a model directory.  Every operation may fail;
-// writes may be short.  The invariant "the target path holds exactly the old
-// or exactly the new content" is asserted after EVERY model operation (each
-// is a possible crash point), and the final state is checked per outcome.
+const vaTarget = "/data/session"
+const vaTempPrefix = TemporaryNamePrefix
 
-var verifErrIO = errors.New("i/o failure")
-
-type vfFile struct {
-	content []byte
-	mode    os.FileMode
+func vaFsRename(sourceDirectory *Directory, sourceNameOrPath string, targetDirectory *Directory, targetNameOrPath string, replace bool) error {
+	if sourceDirectory != nil || targetDirectory != nil {
+		vaUnmodelled("filesystem.Rename relative to directory handles")
+	}
+	return vaRenamePath(sourceNameOrPath, targetNameOrPath, replace)
 }
 
-type vfDir struct {
-	files  map[string]*vfFile
-	names  []string // creation order
-	old    []byte
-	hadOld bool
-	new    []byte
-	target string // base name of the target
-	ops    int
-}
-
-var vfd *vfDir
-var vfHandles map[*os.File]string // open handle -> file name
-var vfClosed map[*os.File]bool
-
-func vfBase(path string) string {
-	if i := strings.LastIndexByte(path, '/'); i >= 0 {
-		return path[i+1:]
-	}
-	return path
-}
-
-func vfBytesEq(a, b []byte) bool {
-	if len(a) != len(b) {
-		return false
-	}
-	var d byte
-	for i := range a {
-		d |= a[i] ^ b[i]
-	}
-	return d == 0
-}
-
-// vfCrashPoint: the state between any two operations must be recoverable.
-func vfCrashPoint() {
-	vfd.ops++
-	f, ok := vfd.files[vfd.target]
-	if !ok {
-		vAssert(!vfd.hadOld, "crash point: an existing target file never disappears")
-		return
-	}
-	isOld := vfd.hadOld && vfBytesEq(f.content, vfd.old)
-	isNew := vfBytesEq(f.content, vfd.new)
-	vAssert(vOr(isOld, isNew), "crash point: target holds exactly the old or exactly the new content")
-}
-
-func vfFail() bool { return vChoose(2) == 1 }
-
-func stubCreateTemp(dir, pattern string) (*os.File, error) {
-	if vfFail() {
-		vfCrashPoint()
-		return nil, verifErrIO
-	}
-	name := pattern + "1"
-	vAssert(dir == "/data", "temporary file is created in the target's directory")
-	if _, exists := vfd.files[name]; exists {
-		name = pattern + "2"
-	}
-	vfd.files[name] = &vfFile{mode: 0600}
-	vfd.names = append(vfd.names, name)
-	h := &os.File{}
-	vfHandles[h] = name
-	vfCrashPoint()
-	return h, nil
-}
-
-func stubFileWrite(f *os.File, data []byte) (int, error) {
-	name := vfHandles[f]
-	vAssert(!vfClosed[f], "no write to a closed file")
-	mf := vfd.files[name]
-	if vfFail() {
-		n := vRange(0, len(data)) // short write
-		if mf != nil {
-			mf.content = append(mf.content, data[:n]...)
-		}
-		vfCrashPoint()
-		return n, verifErrIO
-	}
-	if mf != nil {
-		mf.content = append(mf.content, data...)
-	}
-	vfCrashPoint()
-	return len(data), nil
-}
-
-func stubFileClose(f *os.File) error {
-	vfClosed[f] = true
-	if vfFail() {
-		vfCrashPoint()
-		return verifErrIO
-	}
-	vfCrashPoint()
-	return nil
-}
-
-func stubFileName(f *os.File) string { return "/data/" + vfHandles[f] }
-
-func stubRemove(path string) error {
-	if vfFail() {
-		vfCrashPoint()
-		return verifErrIO
-	}
-	name := vfBase(path)
-	vAssert(name != vfd.target, "the target itself is never removed")
-	delete(vfd.files, name)
-	vfCrashPoint()
-	return nil
-}
-
-func stubChmod(path string, mode os.FileMode) error {
-	if vfFail() {
-		vfCrashPoint()
-		return verifErrIO
-	}
-	if f := vfd.files[vfBase(path)]; f != nil {
-		f.mode = mode
-	}
-	vfCrashPoint()
-	return nil
-}
-
-func stubRename(sourceDirectory *Directory, sourceNameOrPath string, targetDirectory *Directory, targetNameOrPath string, replace bool) error {
-	if vfFail() {
-		vfCrashPoint()
-		return verifErrIO
-	}
-	vAssert(replace, "rename replaces the target")
-	src, dst := vfBase(sourceNameOrPath), vfBase(targetNameOrPath)
-	f, ok := vfd.files[src]
-	if !ok {
-		vfCrashPoint()
-		return verifErrIO
-	}
-	// rename(2) is atomic: the target switches from old to new in one step
-	delete(vfd.files, src)
-	vfd.files[dst] = f
-	vfCrashPoint()
-	return nil
-}
-
-var verifStubs = map[string]any{
-	"os.CreateTemp":      stubCreateTemp,
-	"(*os.File).Write":   stubFileWrite,
-	"(*os.File).Close":   stubFileClose,
-	"(*os.File).Name":    stubFileName,
-	"os.Remove":          stubRemove,
-	"os.Chmod":           stubChmod,
-	"github.com/mutagen-io/mutagen/pkg/filesystem.Rename": stubRename,
-}
+// vaUnmodelled has no body on purpose: reaching it makes the engine stop with
+// "cannot decide" (ENGINE-ERROR) instead of a verdict.
+func vaUnmodelled(what string)
 
 func VerifC27() {
-	vfd = &vfDir{files: map[string]*vfFile{}, target: "session"}
-	vfHandles = map[*os.File]string{}
-	vfClosed = map[*os.File]bool{}
-	maxLen := vParam("maxlen", 2)
-	vfd.hadOld = vBool()
-	if vfd.hadOld {
-		vfd.old = vBytes(vRange(0, maxLen))
-		vfd.files["session"] = &vfFile{content: append([]byte(nil), vfd.old...), mode: 0600}
-	}
-	vfd.new = vBytes(vRange(0, maxLen))
-	data := append([]byte(nil), vfd.new...)
-
-	err := WriteFileAtomic("/data/session", data, 0600)
-
-	f, exists := vfd.files["session"]
-	if err == nil {
-		vCover("success")
-		vAssert(exists && vfBytesEq(f.content, vfd.new), "success: target holds exactly the new content")
-		if exists {
-			vAssert(f.mode == 0600, "success: target has the requested permissions")
-		}
-		vAssert(len(vfd.files) == 1, "success: no other file is left behind")
-	} else {
-		vCover("failure")
-		if vfd.hadOld {
-			vAssert(exists && vfBytesEq(f.content, vfd.old), "failure: target still holds exactly the old content")
-		} else {
-			vAssert(!exists, "failure: no target appears")
-		}
-	}
-	for name := range vfd.files {
-		if name != "session" {
-			vCover("leftover")
-			vAssert(strings.HasPrefix(name, TemporaryNamePrefix), "any other file carries the Mutagen temporary prefix")
-		}
-	}
-	for h := range vfHandles {
-		vAssert(vfClosed[h], "every opened file is closed")
-	}
+	vaRun(func(data []byte) error {
+		return WriteFileAtomic(vaTarget, data, 0600)
+	}, 0600)
 }
